@@ -32,6 +32,8 @@ MUTANTS: Dict[str, List[Tuple[str, str, str, Optional[str]]]] = {
         ("pyttb/ktensor.py", "ttb.khatrirao(*self.factor_matrices[:i_split], reverse=True)", "ttb.khatrirao(*self.factor_matrices[:i_split])", "KR"),
     ],
     "C02": [
+        ('pyttb/tensor.py', '        elif isinstance(selfdims, int):\n            selfdims = np.array([selfdims])', '        else:\n            selfdims, _ = tt_dimscheck(self.ndims, dims=selfdims)', 'PAIRED'),
+        ('pyttb/tensor.py', '        Y_data = np.transpose(Y_data, np.argsort(order))\n        return ttb.tensor(Y_data, copy=True)', '        Y_data = np.array(np.transpose(Y_data, np.argsort(order)), dtype=self.data.dtype, order=self.order)\n        return ttb.tensor(Y_data, copy=False)', 'DTYPE'),
         ('pyttb/sptensor.py', '        c = ttb.sptensor.from_aggregator(newsubs, newvals, tuple(newsiz))', '        c = ttb.sptensor(newsubs, newvals, tuple(newsiz))', 'AGG'),
         ('pyttb/tensor.py', '        if self.ndims > 1:\n            c = np.transpose(c, np.concatenate((remdims, dims)))', '        if self.ndims > 1 and (self.ndims - 1) in remdims:\n            c = np.transpose(c, np.concatenate((remdims, dims)))', 'MOVE'),
         ('pyttb/ktensor.py', '        W = np.tile(self.weights[:, None], (1, R))', '        W = np.ones((self.ncomponents, R))', 'WDEG'),
@@ -65,6 +67,7 @@ MUTANTS: Dict[str, List[Tuple[str, str, str, Optional[str]]]] = {
         ("pyttb/ktensor.py", "                self.weights = new_value", "                self.weights = data[0 : self.ncomponents]", "AL-cap"),
     ],
     "C06": [
+        ('pyttb/sptensor.py', '                loc = tt_intersect_rows(self.subs, addsubs)\n                self.vals[loc] = value', '                loc = tt_intersect_rows(addsubs, self.subs)\n                self.vals[loc] = value', 'IX-dom'),
         ("pyttb/sptensor.py", "        vals[valid] = self.vals[matching_indices]", "        vals[matching_indices] = self.vals[matching_indices]", "IX-dom"),
         ("pyttb/sptensor.py", "True * np.ones((subs.shape[0], 1)).astype(self.vals.dtype)", "True * np.ones((self.subs.shape[0], 1)).astype(self.vals.dtype)", None),
         ("pyttb/sptensor.py", "                _, idxOther = tt_ismember_rows(self.subs[idxSelf], other.subs)\n                newsubs", "                idxOther = tt_intersect_rows(other.subs, self.subs)\n                newsubs", "IX-seq"),
@@ -78,6 +81,7 @@ MUTANTS: Dict[str, List[Tuple[str, str, str, Optional[str]]]] = {
         ("pyttb/ttensor.py", "new_u = [self.factor_matrices[idx] for idx in order]", "new_u = [self.factor_matrices[idx] for idx in np.argsort(order)]", None),
     ],
     "C08": [
+        ('pyttb/ktensor.py', '                        1.0 / tmp * self.factor_matrices[mode][:, r]\n                    )\n                self.weights[r] = self.weights[r] * tmp', '                        1.0 / tmp * self.factor_matrices[mode][:, r]\n                    )\n                    self.weights[r] = self.weights[r] * tmp', 'SCALE'),
         ('pyttb/ktensor.py', '                p = np.argsort(self.weights)[::-1]\n                self.arrange(permutation=p)', '                p = np.argsort(self.weights)[::-1]\n                self.weights[:] = np.abs(self.weights)\n                self.arrange(permutation=p)', 'PS-k'),
         ('pyttb/ktensor.py', '        D = np.diag(np.power(np.fabs(self.weights), 1.0 / self.ndims))\n        factor_matrices = self.factor_matrices.copy()\n        factor_matrices[0] = factor_matrices[0] @ np.diag(lsgn)', '        D = np.diag(lsgn * np.power(np.fabs(self.weights), 1.0 / self.ndims))\n        factor_matrices = self.factor_matrices.copy()', 'SCALE'),
         ('pyttb/ktensor.py', '                nflip = int(2 * np.floor(np.size(negidx) / 2))\n\n                for i in range(nflip):\n                    n = negidx[i]', '                nflip = 2 * round(np.size(negidx) / 2)\n\n                for n in negidx[:nflip]:', 'PARITY'),
@@ -94,6 +98,7 @@ MUTANTS: Dict[str, List[Tuple[str, str, str, Optional[str]]]] = {
         ("pyttb/cp_als.py", "    U = init.copy().factor_matrices", "    U = init.factor_matrices", "INIT"),
     ],
     "C10": [
+        ('pyttb/tucker_als.py', '        for n in dimorder:\n', '        for n, rank_n in zip(dimorder, rank):\n', 'SLOT'),
         ("pyttb/hosvd.py", "factor_matrices[k] = V[:, pi[0 : ranks[k]]]", "factor_matrices[k] = V[:, pi[0 : ranks[k] + 1]]", "UNITS"),
         ("pyttb/hosvd.py", "eigsumthresh = ((tol**2) * normxsqr) / d", "eigsumthresh = (tol * normxsqr) / d", "THR"),
         ("pyttb/hosvd.py", "Y = Y.ttm(factor_matrices[k].transpose(), int(k))", "Y = Y.ttm(factor_matrices[k], int(k))", "TTM-T"),
@@ -121,6 +126,7 @@ MUTANTS: Dict[str, List[Tuple[str, str, str, Optional[str]]]] = {
         ("pyttb/gcp/optimizers.py", "        self._solver_kwargs[\"callback\"] = monitor.callback", "        pass", "ST-slot"),
     ],
     "C14": [
+        ('pyttb/pyttb_utils.py', '                cdims = rdims\n                rdims = np.setdiff1d(alldims, rdims)', '                cdims = rdims\n                rdims = np.roll(np.arange(ndims), -rdims[0])[1:]', 'EIG-unf'),
         ('pyttb/tensor.py', '            w, v = scipy.sparse.linalg.eigsh(y, r)\n            v = v[:, (-np.abs(w)).argsort()]', '            w, v = scipy.sparse.linalg.eigsh(y, r)\n            v = v / np.sqrt(np.abs(w))\n            v = v[:, (-np.abs(w)).argsort()]', 'EIG-gram'),
         ('pyttb/ktensor.py', '        M = self.weights[:, None] @ self.weights[:, None].T\n        for i in range(self.ndims):', '        M = np.tile(self.weights[:, None], (1, self.ncomponents))\n        for i in range(self.ndims):', 'EIG-gram'),
         ('pyttb/tensor.py', '            w, v = scipy.linalg.eigh(y)\n            v = v[:, (-np.abs(w)).argsort()]\n            v = v[:, :r]', '            v, _, _ = scipy.linalg.svd(Xn, full_matrices=False)\n            v = v[:, :r]', 'EIG-ret'),
@@ -162,6 +168,7 @@ MUTANTS: Dict[str, List[Tuple[str, str, str, Optional[str]]]] = {
         ("pyttb/tensor.py", "        if self.ndims == 1 and (order == 1).all():", "        if (order == 1).all():", "GD-val"),
     ],
     "C20": [
+        ('pyttb/sptensor.py', '    return sptensor.from_aggregator(subs, elements.reshape((N, 1)), constructed_shape)', '    return sptensor(subs, elements.reshape((N, 1)), constructed_shape)', 'DIAG'),
         ('pyttb/tensor.py', '    subs = np.tile(np.arange(0, N)[:, None], (len(constructed_shape),))\n    X[subs] = elements', '    stride = int(np.sum(np.cumprod((1,) + constructed_shape[1:])))\n    X[np.arange(0, N) * stride] = elements', 'DIAG'),
         ("pyttb/tensor.py", "    def ones(shape: Tuple[int, ...]) -> np.ndarray:\n        return np.ones(shape, order=order)", "    def ones(shape: Tuple[int, ...]) -> np.ndarray:\n        return np.zeros(shape, order=order)", "GEN-fill"),
         ("pyttb/sptensor.py", "            subs = np.unique(subs, axis=0)\n            cnt += 1", "            cnt += 1", "GEN-uniq"),
